@@ -88,6 +88,27 @@ func matrixCases() []*Case {
 			}
 		}
 	}
+	// forged certificate (victim's serial, forger's key): by the forger's embedded key, by any
+	// account through kid, and signed with an unrelated key
+	for req := 0; req <= 4; req++ {
+		for own := 0; own <= 2; own++ {
+			k := base("revoke", own/2, req, own, "valid")
+			k.Payload = "forged"
+			k.J.KeyMode, k.J.SignWith, k.J.JwkOf = "jwk", "forge", "req"
+			out = append(out, k)
+			k2 := base("revoke", own/2, req, own, "valid")
+			k2.Payload = "forged"
+			out = append(out, k2)
+		}
+	}
+	// the provisioner was re-created under the same name with a new id: every account of the old one is refused
+	for _, route := range allRoutes {
+		for req := 0; req <= 2; req++ {
+			k := base(route, req/2, req, req, "valid")
+			k.ProvSwap = true
+			out = append(out, k)
+		}
+	}
 	// unknown provisioner in the URL
 	for _, route := range allRoutes {
 		out = append(out, base(route, 2, 0, 0, "valid"))
@@ -130,6 +151,15 @@ func genMatrix(r *c.Rng) *Case {
 	}
 	if route == "newAccount" && r.Chance(1, 6) {
 		k.J.KeyMode = "kid"
+	}
+	if route == "revoke" && r.Chance(1, 4) {
+		k.Payload = "forged"
+		if r.Chance(2, 3) {
+			k.J.KeyMode, k.J.SignWith, k.J.JwkOf = "jwk", "forge", "req"
+		}
+	}
+	if r.Chance(1, 10) {
+		k.ProvSwap = true
 	}
 	return k
 }
